@@ -10,6 +10,7 @@ from rdflib.plugins.sparql.sparql import SPARQLError
 from ..consts import SH, RDFS_comment, SH_ask, SH_parameter, SH_select
 from ..errors import ConstraintLoadError, ReportableRuntimeError
 from ..helper import get_query_helper_cls
+from ..helper.sparql_query_helper import query_with_shapes_graph_text
 from ..parameter import SHACLParameter
 
 if typing.TYPE_CHECKING:
@@ -147,7 +148,7 @@ class SPARQLFunction(SHACLFunction):
 
     def execute_select(self, g: 'GraphLike', init_bindings: Dict):
         s = self._qh.apply_prefixes(self.select)
-        results = g.query(s, initBindings=init_bindings)
+        results = query_with_shapes_graph_text(g, s, init_bindings)
         if results.type != "SELECT" or results.vars is None:
             raise ReportableRuntimeError("Was expecting an SELECT response from the Select query.")
         rvars = len(results.vars)
@@ -160,7 +161,7 @@ class SPARQLFunction(SHACLFunction):
 
     def execute_ask(self, g: 'GraphLike', init_bindings: Dict):
         a = self._qh.apply_prefixes(self.ask)
-        results = g.query(a, initBindings=init_bindings)
+        results = query_with_shapes_graph_text(g, a, init_bindings)
         if results.type != "ASK":
             raise ReportableRuntimeError("Was expecting an ASK response from the Ask query.")
         return Literal(results.askAnswer)
